@@ -4,6 +4,9 @@ pub mod c01;
 pub mod c04;
 pub mod c06;
 pub mod c07;
+#[cfg(feature = "full")]
+pub mod c10;
+pub mod c12;
 
 pub struct Spec {
     pub id: &'static str,
@@ -55,6 +58,23 @@ pub fn all() -> Vec<Spec> {
             run: c07::run,
             level: "exploration",
             rule: "a valid stream (0..5 messages, any encoding, raw or prost codec) is mutated by one of 15 classes (bitflip, illegal flag, flag 1 without encoding, length +/- d, truncation, splice, duplicated prefix, garbage compressed payload, undecodable protobuf, raw random, huge declared length, over-limit, injected body error, or left valid), re-cut by 7 cut styles, optionally followed by OK / error / garbage trailers, and decoded by the real Streaming which is polled 8 more times after its first End/Err; monitor `truncate-all` truncates small streams at every byte. Oracle = reference framing parser + lenient independent decompressor + small protobuf parser deciding prefix-validity, must-fail / must-not-fail and finality. Fingerprint = mutation|enc|codec|direction|cut style|trailers kind|injected|#yielded|terminal. Non-trivial = any case whose input is not the unmutated valid stream.",
+            exhaustive: false,
+            assumptions: COMMON_ASSUMPTIONS,
+        },
+        #[cfg(feature = "full")]
+        Spec {
+            id: "C10",
+            run: c10::run,
+            level: "exploration",
+            rule: "12 services generated by the real tonic-build with names that collide by prefix/suffix/case/package (a.S, a.Sx, a.s, S, a.b.S, aa.S, a.SS, a, a.S.M, b.S, aS, A.S; methods M, Mx, m, MM, N, S); a random subset (0..6) is registered in two random orders through three construction paths (Routes::default().add_service, RoutesBuilder, Routes::new) with a random subset behind InterceptedService; 8 request paths per configuration from 20 classes (exact, extended/truncated names, case flip, trailing/empty/middle/extra segments, percent-encoded letter, query, cross-service method, odd fixed paths, look-alikes). Oracle: string equality of uri.path() with '/S/M' of a registered service decides exactly which handler runs once (reply tag checked); otherwise no handler and HTTP 200 + grpc-status 12; both orders must agree. Fingerprint = path class|#registered|construction styles|hit|path length class. Non-trivial = a non-exact path, or an exact path that hit.",
+            exhaustive: false,
+            assumptions: COMMON_ASSUMPTIONS,
+        },
+        Spec {
+            id: "C12",
+            run: c12::run,
+            level: "exploration",
+            rule: "http::Request generated over 10 methods x 5 versions x 10 URI shapes x header multimaps (repeated, reserved, -bin valid/invalid, grpc-timeout) x 3 extension marker types x a token body that records polls; interceptor action in {identity, insert, append, remove, ext insert/remove/replace, fresh request, reject(any code, Unicode message, details, metadata)} applied by the real InterceptedService in front of a capture service. Oracle: reference application of the action to the original header multimap and extension set; URI/method/version/body identity; on reject: capture count 0, HTTP 200 + application/grpc, empty body, status decoded by the harness's own codecs and by Status::from_header_map. Fingerprint = action|method|version|#headers class|reserved present|extension presence bits. Non-trivial = any non-identity action.",
             exhaustive: false,
             assumptions: COMMON_ASSUMPTIONS,
         },
